@@ -123,10 +123,9 @@ class PolytopeTensor(PointLikeTensor, ABC):
         if pdim == 1:
             return SegmentCollection.from_tensor(tensor)
         if pdim == 2:
-            if tensor.shape[-2] == 3:
-                # TODO: check if a collection can be returned here
+            if tensor.free_indices == 1 and tensor.shape[-2] == 3:
                 return Triangle(tensor, copy=False)
-            if tensor.shape[-2] == 4:
+            if tensor.free_indices == 1 and tensor.shape[-2] == 4:
                 try:
                     return Rectangle(tensor, copy=False)
                 except NotCoplanar:
@@ -311,6 +310,14 @@ class Segment(SegmentTensor, Polytope):
 
 class SegmentCollection(SegmentTensor, PolytopeCollection[Segment]):
     _element_class = Segment
+
+    @classmethod
+    def from_tensor(cls, tensor: Tensor, **kwargs: Unpack[NDArrayParameters]) -> SegmentCollection | Segment:
+        # a single segment has one free index (the axis of its two vertices)
+        kwargs.setdefault("copy", False)
+        if tensor.free_indices > 1:
+            return cls(tensor, **kwargs)
+        return cls._element_class(tensor, **kwargs)
 
     def expand_dims(self, axis: int) -> SegmentCollection:
         result = super().expand_dims(axis)
@@ -587,6 +594,14 @@ class Polygon(PolygonTensor, Polytope):
 
 class PolygonCollection(PolygonTensor, PolytopeCollection[Polygon]):
     _element_class = Polygon
+
+    @classmethod
+    def from_tensor(cls, tensor: Tensor, **kwargs: Unpack[NDArrayParameters]) -> PolygonCollection | Polygon:
+        # a single polygon has one free index (the axis of its vertices)
+        kwargs.setdefault("copy", False)
+        if tensor.free_indices > 1:
+            return cls(tensor, **kwargs)
+        return cls._element_class(tensor, **kwargs)
 
 
 class RegularPolygon(Polygon):
